@@ -30,7 +30,7 @@ def reqOf (op : String) : Option Nat := if op.startsWith "a" then (op.drop 1).to
 def handledOf (res : String) : Option Nat := if res.startsWith "h" then (res.drop 1).toString.toNat? else none
 
 /-- consume one trace entry `tid:label` at position `pos` -/
-def feed (progs res : List (List String)) (a : Acc) (pos : Nat) (entry : String) : Acc :=
+def feed (fixed : Bool) (progs res : List (List String)) (a : Acc) (pos : Nat) (entry : String) : Acc :=
   match entry.splitOn ":" with
   | tidS :: rest =>
     let lab := ":".intercalate rest
@@ -48,7 +48,9 @@ def feed (progs res : List (List String)) (a : Acc) (pos : Nat) (entry : String)
             | some k =>
               -- caller
               if st.phase = 0 then { a with ts := a.ts.set tid { st with phase := 1 } }
-              else if st.phase = 1 then { a with ts := a.ts.set tid { st with phase := 2 }, selectAt := (k, pos) :: a.selectAt }
+              else if st.phase = 1 then
+                if fixed then { a with ts := a.ts.set tid { opIdx := st.opIdx + 1, phase := 0 }, selectAt := (k, pos) :: a.selectAt }
+                else { a with ts := a.ts.set tid { st with phase := 2 }, selectAt := (k, pos) :: a.selectAt }
               else { a with ts := a.ts.set tid { opIdx := st.opIdx + 1, phase := 0 } }
             | none =>
               -- worker: `Deq` then (when a message was dequeued) `CAS:responseClosed`
@@ -63,9 +65,9 @@ def feed (progs res : List (List String)) (a : Acc) (pos : Nat) (entry : String)
       | _, _ => a
   | [] => a
 
-def feedAll (progs res : List (List String)) : Acc → Nat → List String → Acc
+def feedAll (fixed : Bool) (progs res : List (List String)) : Acc → Nat → List String → Acc
   | a, _, [] => a
-  | a, pos, e :: es => feedAll progs res (feed progs res a pos e) (pos + 1) es
+  | a, pos, e :: es => feedAll fixed progs res (feed fixed progs res a pos e) (pos + 1) es
 
 def lookup (l : List (Nat × Nat)) (k : Nat) : Option Nat := (l.find? (·.1 == k)).map (·.2)
 
@@ -83,12 +85,13 @@ def verdict (progs res : List (List String)) (a : Acc) : String :=
 def judge (case out : String) : String :=
   if out.startsWith "CRASH" || out.startsWith "panic" then "bad crash " ++ out
   else match case.splitOn "|", out.splitOn "|" with
-    | [_, progs, _], [tr, rs, _] =>
+    | [cfg, progs, _], [tr, rs, _] =>
+      let fixed := (words cfg).contains "fixed"
       let progs := (progs.splitOn ";").map words
       let res := ((rs.trimAscii.toString.drop 1).toString.splitOn ";").map fun r => (r.trimAscii.toString.splitOn ",")
       let tr := (words tr).drop 1
       if tr.contains "cap" then "ok unfinished"
-      else verdict progs res (feedAll progs res { ts := progs.map fun _ => {} } 0 tr)
+      else verdict progs res (feedAll fixed progs res { ts := progs.map fun _ => {} } 0 tr)
     | _, _ => "bad unparsable " ++ out
 
 end GoaktVerif.Spec.C15
